@@ -359,6 +359,16 @@ class Engine:
     keep_args = False
     MAX_DEPTH = 16
 
+    def reset(self):
+        self.memo = {}
+        self.fold_cache = {}
+        self.promoted_cache = {}
+        self.ctx_args = {}
+        self.ctx = defaultdict(int)
+        self.joined = {}
+        self.bodies = {}
+        self.site = {}          # (fn path, site key) -> 0 safe / 1 unresolved / 2 alarm
+
     def entry_args(self, f):
         vals = []
         short = f.path.replace("temporal_rs::", "").replace("builtins::core::", "")
@@ -377,14 +387,7 @@ class Engine:
         return vals
 
     def run(self):
-        self.memo = {}
-        self.fold_cache = {}
-        self.promoted_cache = {}
-        self.ctx_args = {}
-        self.ctx = defaultdict(int)
-        self.joined = {}
-        self.bodies = {}
-        self.site = {}          # (fn path, site key) -> 0 safe / 1 unresolved / 2 alarm
+        self.reset()
         for f in sorted(self.fns.values(), key=lambda f: f.path):
             if f.reachable and f.kind in ("Fn", "AssocFn"):
                 self.stats["entry_points"] = self.stats.get("entry_points", 0) + 1
@@ -576,6 +579,12 @@ class FnAnalysis:
                 cv = self.eng.call_fn(k["def"], [], self.stack if k["def"] not in self.stack else self.stack)
                 if cv is not None and k["def"] not in self.stack:
                     return cv
+            if "enum_bits" in k:
+                dm = self.discr_map(self.sty(k.get("ty")))
+                if dm:
+                    for nm, dv in dm.items():
+                        if dv == k["enum_bits"]:
+                            return Rec({("variant", nm): Rec({})})
             if "promoted" in k and not self.is_promoted:
                 pv = self.eng.promoted_value(self.f, k["promoted"], self.subst)
                 if pv is not None:
@@ -1159,6 +1168,9 @@ class FnAnalysis:
         ln = t.get("line")
         if isinstance(ln, list) and any("debug_assert" in str(m) for m in ln[1:]):
             pred = None        # debug assertions vanish in release builds: they bound nothing
+        cur = self.operand(env, on)
+        if isinstance(cur, AV) and cur.lo == cur.hi and t.get("ty") == "bool":
+            pred = None        # the condition is already decided: only the matching branch is feasible (integer switch below)
         if pred is not None and t.get("ty") == "bool":
             # switchInt(bool): arms [[0, bbFalse]] else bbTrue
             for val, tgt in arms:
@@ -1203,7 +1215,11 @@ class FnAnalysis:
                     continue
                 self.apply_refinement(e2, on, AV(val, val, dv.t, dv.why, dv.w, dv.x))
             outs.append((tgt, e2))
-        outs.append((t["else"], dict(env)))
+        # the otherwise branch is taken only by values no arm lists
+        if isinstance(dv, AV) and dv.hi - dv.lo < 64 and all(v in {a[0] for a in arms} for v in range(dv.lo, dv.hi + 1)):
+            outs.append((t["else"], None))
+        else:
+            outs.append((t["else"], dict(env)))
         return outs
 
     def set_place(self, env, rp, av):
@@ -1339,6 +1355,18 @@ class FnAnalysis:
             handled = True
             pv = eng.top(dty, "T", "the result of TimeZoneProvider::%s" % name)
             val = pv if val is None else join(val, pv)
+        if not handled and name in ("lt", "le", "gt", "ge", "eq", "ne") and len(args) == 2 and path.startswith("core::cmp::"):
+            # comparison of two enum values whose variant is known: decided from the discriminants
+            dm = self.discr_map(self.op_ty(t["args"][0]))
+            vs = []
+            for a in args:
+                ks = [k[1] for k in a.f if isinstance(k, tuple)] if isinstance(a, Rec) else []
+                vs.append(dm.get(ks[0]) if (dm and len(ks) == 1 and not any(isinstance(v, Rec) and v.f for v in a.f.values())) else None)
+            if vs[0] is not None and vs[1] is not None:
+                res = {"lt": vs[0] < vs[1], "le": vs[0] <= vs[1], "gt": vs[0] > vs[1], "ge": vs[0] >= vs[1],
+                       "eq": vs[0] == vs[1], "ne": vs[0] != vs[1]}[name]
+                val = AV(int(res), int(res))
+                handled = True
         if not handled:
             val = self.std_call(env, t, path, target, name, args, dty)
         e2 = dict(env)
@@ -1539,6 +1567,13 @@ class FnAnalysis:
             src = "the position found by `%s` (0 for the first element / a key before all elements)" % name
             mk = lambda: AV(0, (1 << 63) - 1, True, src, False, frozenset([src]))
             return Rec({("variant", "Ok"): Rec({0: mk()}), ("variant", "Err"): Rec({0: mk()})})
+        if name in ("div_rem_euclid", "div_mod_floor") and isinstance(a0, AV) and isinstance(a1, AV) and a1.lo > 0:
+            q = self.arith("Div", a0, a1, None) if a0.lo >= 0 else AV(-((-a0.lo) // a1.lo) - 1, max(a0.hi, 0) // a1.lo, a0.t or a1.t,
+                                                                         a0.why if a0.t else a1.why, a0.w or a1.w)
+            rem = AV(0, a1.hi - 1, a0.t or a1.t, a0.why if a0.t else a1.why, a0.w or a1.w)
+            if a0.lo >= 0 and a0.hi < a1.lo:
+                rem = AV(a0.lo, a0.hi, a0.t, a0.why, a0.w, a0.x)
+            return Rec({0: q, 1: rem})
         if name == "default" and "Default" in path:
             if r:
                 return AV(0, 0)
@@ -1789,6 +1824,15 @@ def _fmt(v):
             return str(x) if abs(x) < 10**7 else ("%.3g" % x)
         return "[%s, %s]" % (s(v.lo), s(v.hi))
     return "?"
+
+
+def engine(fx, crates=("temporal_rs",)):
+    """an engine ready for individual `call_fn(path, abstract args, ())` queries (no entry-point sweep)"""
+    global _ENG
+    eng = Engine(fx, crates)
+    _ENG = eng
+    eng.reset()
+    return eng
 
 
 def analyse(fx, crates=("temporal_rs", "temporal_capi")):
